@@ -134,14 +134,29 @@ def grid_case(ctx, idx, rng):
             kd2 = 10**9
         check_eigh(ctx, A, v, m, kd2)
         check_expm(ctx, A, v, dt, m, kd2, hermitian=True)
-    # non-normal matrix for the general branch
-    G = A + (rng.normal(size=(n, n)) + (1j * rng.normal(size=(n, n)) if cplx else 0)) * 0.4
+    # non-normal matrix for the general branch: generic, or defective / highly non-normal (Jordan blocks, ladder operators), where an
+    # eigen-decomposition of the projected matrix is ill-conditioned or impossible
+    gk = ('generic', 'jordan', 'ladder', 'triangular-degenerate')[(idx // 5) % 4]
+    if gk == 'generic' or n == 1:
+        G = A + (rng.normal(size=(n, n)) + (1j * rng.normal(size=(n, n)) if cplx else 0)) * 0.4
+    else:
+        if gk == 'jordan':
+            N = np.triu(rng.normal(size=(n, n)), 1) * (rng.random(size=(n, n)) < 0.5)
+            G0 = float(rng.normal()) * np.identity(n) + N
+        elif gk == 'ladder':
+            G0 = np.diag(np.sqrt(np.arange(1, n)), 1 if rng.random() < 0.5 else -1) + float(rng.choice([0, 0.7])) * np.identity(n)
+        else:
+            G0 = np.triu(rng.normal(size=(n, n)))
+            G0[np.diag_indices(n)] = np.repeat(rng.normal(size=(n + 1) // 2), 2)[:n]
+        Q = np.linalg.qr(rng.normal(size=(n, n)) + (1j * rng.normal(size=(n, n)) if cplx else 0))[0] if rng.random() < 0.6 else np.identity(n)
+        G = Q @ G0 @ Q.conj().T
+        G = G / max(1.0, np.linalg.norm(G, 2) / 3)
     vg = rng.normal(size=n) + (1j * rng.normal(size=n) if cplx else 0)
     resg = kr.krylov_residuals(G, vg, m + 1)
     kdg = kr.krylov_dim(resg)
     if any(1e-8 <= r <= 1e-5 for r in resg[:m]):
         kdg = 10**9
-    ctx.case(('general', 'm>n' if m > n else ('m=n' if m == n else 'm<n'), 'exhausted' if m >= kdg else 'not-exhausted', 'complex' if cplx else 'real', dtk),
+    ctx.case(('general', gk, 'm>n' if m > n else ('m=n' if m == n else 'm<n'), 'exhausted' if m >= kdg else 'not-exhausted', 'complex' if cplx else 'real', dtk),
              sample={'n': n, 'm': m, 'G': G, 'v': vg, 'dt': dt})
     check_expm(ctx, G, vg, dt, m, kdg, hermitian=False)
 
@@ -180,7 +195,7 @@ def f6_case(ctx, idx, rng):
 SPEC = {
     'id': 'C15',
     'rule': ('same (n, m) grid as C14 (1<=n<=10, 1<=m<=n+5) x spectra x starts x real/complex x dt in {imaginary, real, complex}: eigh_krylov and '
-             'expm_krylov (both flags) on Hermitian matrices, expm_krylov general branch on non-normal matrices; large n; cases with m close to n '
+             'expm_krylov (both flags) on Hermitian matrices, expm_krylov general branch on non-normal matrices incl. defective ones (Jordan blocks, ladder operators, degenerate triangular); large n; cases with m close to n '
              '(orthogonality-loss regime). Bounds and norm preservation are demanded for every m; exactness where m >= the independently computed '
              'Krylov dimension (ambiguous exhaustion, residual in [1e-8,1e-5], skipped and counted); Ritz-vector orthonormality and Rayleigh quotients where m < Krylov '
              'dimension (all conditioning classes). distinct = (branch, m vs n, exhausted?, spectrum, start, dtype, dt class).'),
